@@ -117,15 +117,15 @@ SIXTH = {
  "C19": "R19.11 (no table keyed by a code address), R19.12 (frame debug data never dropped), R19.13 (no code generation from arbitrary nodes; D94), R19.14 (the debugger is consulted before every node), R19.15 (the ancestor frame is not assumed to belong to the session; D112).",
 }
 EIGHTH = {
- "C01": "R01.37 (break leaves the innermost for, switch or select of its function; found D119, D120), R01.38 (range over a channel only in the form without key; D125), R01.39/R01.40 (select receive clauses: variable declared only for :=, every clause form has a direction; D127, D128), R01.41 (each blank assignment has its own location; D131).",
+ "C01": "R01.37 (break leaves the innermost for, switch or select of its function; found D119, D120), R01.38 (range over a channel only in the form without key; D125), R01.39/R01.40 (select receive clauses: variable declared only for :=, every clause form has a direction; D127, D128), R01.41 (each blank assignment has its own location; D131), R01.42 (a redeclared variable keeps its type; D144).",
  "C02": "R02.21 (the direct-store shortcut of operator results is not taken for the blank identifier; D135, and D136 - a regression of D35 found by probing), R02.22 (division by a zero constant is an error only for a constant or integer dividend; D143).",
- "C03": "R03.22 (= R12.32: conversion of a typed constant checked; D121), R03.23 (unsafe builtin names agree; D124), R03.24 (iota reset at the start of each constant declaration; D130); R03.5 no longer counts that reset as an advance.",
+ "C03": "R03.22 (= R12.32: conversion of a typed constant checked; D121), R03.23 (unsafe builtin names agree; D124), R03.24 (iota reset at the start of each constant declaration; D130), R03.25 (no early acceptance of binaryExpr bypasses the operand type agreement; D146); R03.5 no longer counts that reset as an advance.",
  "C05": "R05.19 (a literal is not built in place of an error-typed destination; D139), R05.20 (nil interface values recognised before they are looked into; D140), R05.21 (promotion through embedded fields only, sibling agreement; D141), R05.22 (method depth and field depth compared in the same unit; D142).",
  "C06": "R06.18 (a panic that leaves a frame is no longer in flight there; D126).",
  "C07": "R07.22 (Symbols recomputed at each call), R07.23 (variadic test of callBin on a position of the parameter list).",
  "C08": "R08.14 (= R04.6: a literal called in place also captures a clone), R08.15 (= R01.39/R01.40), R08.16 (select send converts the value as a send statement; D129), guarded-by entry opt.env -> Interpreter.envMu in R08.3 with element stores counted as writes (D132: a script could kill the host with concurrent os.Setenv/os.Getenv).",
  "C11": "R11.15 (the first token of a chunk is the scanner's).",
- "C12": "R12.26-R12.34 (untyped nil, comparison operands, return constants, non-function callee, single-valued source, tagless switch conditions, break/continue targets, typed constant conversion, negative constant index, string element as destination; found D113-D118, D120-D123); the reviewed exception of R12.3 for binaryExpr was wrong and is removed; R12.35 (destination form; D137), R12.36 (forwarded return values; D138).",
+ "C12": "R12.26-R12.34 (untyped nil, comparison operands, return constants, non-function callee, single-valued source, tagless switch conditions, break/continue targets, typed constant conversion, negative constant index, string element as destination; found D113-D118, D120-D123); the reviewed exception of R12.3 for binaryExpr was wrong and is removed; R12.35 (destination form; D137), R12.36 (forwarded return values; D138), R12.37 (= R01.42), R12.38 (addressable operands; D145), R12.39 (= R03.25).",
  "C15": "R15.16 (descent into referenced bodies independent of the initialiser's shape).",
  "C17": "R17.15 (callers of the constraint evaluator remember no verdict); K8 and K9 repaired (D133, D134): no known finding left for C17; R17.2 compares the table of unix systems with go/build's.",
  "C18": "R18.12 (imports registered where the text using them is produced).",
